@@ -114,9 +114,9 @@ def run(ctx):
     # (the top-level load function may reset the field to the schema the
     # constructor was given: C12.R9 decides that it is such a reset)
     from rules import stale as _st
-    _resetting = {fn.qualname for fn, a, reset in _st.field_stores(
+    _resetting = {m.owner(fn).qualname for fn, a, reset in _st.field_stores(
         m, [CL] + m.subclasses(CL), "schema") if reset}
-    _rebinding = {fn.qualname for fn, a, reset in _st.field_stores(
+    _rebinding = {m.owner(fn).qualname for fn, a, reset in _st.field_stores(
         m, [CL] + m.subclasses(CL), "schema") if not reset}
     run.check(_rebinding <= {CL + ".__init__", CL + ".importSchemaComponent"}
               and CL + ".importSchemaComponent" in _rebinding
